@@ -80,9 +80,30 @@ def preemption_schedules(nthreads, seg_counts, max_preempt):
     rec([0] * nthreads, None, 0, [])
     return res
 
+def gen_turnover(rng):
+    """collector turnover: collectors that emit an event while they are dropped (a collector logging its own shutdown), each
+    the scoped default of one thread that also gives up the last other handle to it — so the collector is dropped BY the scope
+    guard — while other threads are inside scopes of their own and hit callsites"""
+    cs = rng.randrange(30)
+    A = ''.join(rng.choice('at') if i == cs else 'n' for i in range(30))
+    nthreads = rng.choice([2, 2, 3])
+    pre = ['dropemit %d' % cs] + ['new %d %sh-' % (20 + t, A) for t in range(nthreads)]
+    threads = []
+    for t in range(nthreads):
+        ops = ['hit %d' % cs for _ in range(rng.choice([0, 1, 2]))]
+        if rng.random() < 0.7: ops.insert(rng.randrange(len(ops) + 1), 'drop %d' % (20 + t))
+        if not ops: ops = ['hit %d' % cs]
+        threads.append('@%d ' % (20 + t) + ' , '.join(ops))
+    sched = ''.join(str(rng.randrange(nthreads)) for _ in range(rng.choice([8, 16, 30, 40])))
+    return 'pre: ' + ' , '.join(pre) + ' | ' + ' | '.join(threads) + ' ;; ' + sched
+
 def race_cases(rng, tier):
     n = 120 if tier == 'quick' else 1500
-    cases = [gen_scenario(rng) for _ in range(n)]
+    cases = [gen_scenario(rng) for _ in range(n)] + [gen_turnover(rng) for _ in range(n // 4)]
+    # systematic turnover: thread 0 gives up the last handle to its default and leaves its scope while thread 1 is inside its own
+    A0 = 'a' + 'n' * 29
+    baseT = 'pre: dropemit 0 , new 20 %sh- , new 21 %sh- | @20 hit 0 , drop 20 | @21 hit 0 , hit 0' % (A0, A0)
+    cases += [baseT + ' ;; ' + s for s in preemption_schedules(2, [12, 10], 1 if tier == 'quick' else 2)]
     # systematic: the two-thread core scenario (first hit vs a new collector that wants the callsite) under every
     # schedule with at most 2 preemptions
     N = 'n' * 30
